@@ -85,7 +85,7 @@ def simplifier_cases(ctx, budget):
     for _ in range(budget):
         n = rng.randrange(3, 40)
         pts, fam = gen.dyadic_curve(rng, n)
-        which = rng.choice(['rdp', 'rdp_fixed', 'grdp', 'mp_grdp'])
+        which = rng.choice(['rdp', 'rdp_fixed', 'grdp', 'mp_grdp', 'min_point_rdp', 'min_point_rdp'])
         case = dict(points=pts.tolist(), simplifier=which)
         try:
             def call():
@@ -95,7 +95,9 @@ def simplifier_cases(ctx, budget):
                     return rdp.rdp_fixed(pts, length=rng.randrange(2, n + 1))
                 if which == 'grdp':
                     return rdp.grdp(pts, t=rng.choice([0.01, 0.1, 0.5]))
-                return rdp.mp_grdp(pts, t=rng.choice([0.01, 0.1]), min_points=rng.randrange(2, n + 1))
+                if which == 'mp_grdp':
+                    return rdp.mp_grdp(pts, t=rng.choice([0.01, 0.1]), min_points=rng.randrange(2, n + 1))
+                return rdp.min_point_rdp(pts, t=[rng.choice([0.5, 0.2, 0.1]), rng.choice([0.05, 0.01])], min_points=rng.randrange(2, n + 1))
             (reduced, removed), _ = core.guarded(call, 64 * (2 * n) + 1024)
         except core.LoopBudgetExceeded:
             ctx.tag('simplifier-loop-budget(C01 territory)')
